@@ -44,7 +44,7 @@ func init() {
 		Replay: replay,
 		Rule: "spaces, each enumerated completely in a fixed order: (1) listed-names: every name of ListSupportedTypes() in sorted order; (2) exported-types: every exported type DPT_<digits> declared in the non-test files of <repo>/knx/dpt (go/parser at run time); " +
 			"(3) unknown-names: a fixed list plus, for every registered name, every single-character replacement and insertion over a 21-character alphabet, every single-character deletion, and the forms DPT_<digits>, <digits>, unpadded main.sub, with leading zero, with surrounding blanks; " +
-			"(4) independence: every registered name once; (5) interleavings: for every chosen pair (a, next name b) every assignment of two-operation programs over {Produce(a), Produce(b), Unpack(own), Pack(own), ListSupportedTypes()} to 1, 2 and 3 logical threads and every interleaving of their operations " +
+			"(4) independence: every registered name once; (5) interleavings: for every chosen pair of names (a, b) - quick: all names with the next name for 1..2 threads, one representative per Go kind (bool, float32, int8, ..., string, struct) with the next kind's for 1..3 threads; thorough: all names with the next name for 1..3 threads - every assignment of two-operation programs over {Produce(a), Produce(b), Unpack(own), Pack(own), ListSupportedTypes()} to 1, 2 and 3 logical threads and every interleaving of their operations " +
 			"(1, 6 and 90 per assignment), executed sequentially in the enumerated order on fresh thread state, every observation compared with the same thread running alone. " +
 			"Oracle: name == fmt.Sprintf(\"%d.%03d\", main, sub); dynamic type == \"*dpt.DPT_\"+name without the dot; names unique; one type per name; every exported DPT_ type produced by some name; unknown => ok == false and nil; " +
 			"a produced instance is the zero value of its type, its pointer differs from every pointer produced before and from the prototype, decoding into it changes no other instance, no prototype and no later result. " +
@@ -737,21 +737,44 @@ func run(r *enumlib.Run) {
 	}
 
 	// (5) interleavings
-	var famPairs, allPairs [][2]string
-	lastFam := ""
+	var kindPairs, allPairs [][2]string
+	var reps []string // first name of every Go kind (bool, float32, ..., string, struct)
+	seenKind := map[reflect.Kind]bool{}
 	for i, n := range names {
-		p := [2]string{n, names[(i+1)%len(names)]}
-		allPairs = append(allPairs, p)
-		if fam := strings.SplitN(n, ".", 2)[0]; fam != lastFam {
-			lastFam = fam
-			famPairs = append(famPairs, p)
+		allPairs = append(allPairs, [2]string{n, names[(i+1)%len(names)]})
+		if d, ok, _ := produce(n); ok && d != nil && reflect.TypeOf(d).Kind() == reflect.Ptr {
+			if k := reflect.TypeOf(d).Elem().Kind(); !seenKind[k] {
+				seenKind[k] = true
+				reps = append(reps, n)
+			}
+		}
+	}
+	for i, n := range reps {
+		if len(reps) > 1 {
+			kindPairs = append(kindPairs, [2]string{n, reps[(i+1)%len(reps)]})
+		}
+	}
+	// quick tier: the kinds that differ in how an instance holds its state (flag, number, text, several fields)
+	var quickPairs [][2]string
+	var quickReps []string
+	for _, n := range reps {
+		d, _, _ := produce(n)
+		switch reflect.TypeOf(d).Elem().Kind() {
+		case reflect.Bool, reflect.Float32, reflect.String, reflect.Struct:
+			quickReps = append(quickReps, n)
+		}
+	}
+	for i, n := range quickReps {
+		if len(quickReps) > 1 {
+			quickPairs = append(quickPairs, [2]string{n, quickReps[(i+1)%len(quickReps)]})
 		}
 	}
 	if r.Thorough() {
 		c.interleavings("interleavings-3x2", allPairs, 3, "every registered name a with the next name b")
+		c.interleavings("interleavings-3x2-kinds", kindPairs, 3, "the first name a of every Go kind of datapoint type with the first name b of the next kind")
 	} else {
 		c.interleavings("interleavings-2x2", allPairs, 2, "every registered name a with the next name b")
-		c.interleavings("interleavings-3x2", famPairs, 3, "the first name a of every main number with the next name b")
+		c.interleavings("interleavings-3x2-kinds", quickPairs, 3, "the first name a of the Go kinds bool, float32, string, struct with the first name b of the next of these kinds")
 	}
 
 	// additional observations: free-running goroutines (child process), race detector (go test -race)
